@@ -130,6 +130,14 @@ func c20Setup() error {
 			c20Inputs = append(c20Inputs, c20Input{name: fmt.Sprintf("ac3-modes-init-%d", k), master: b.Bytes()})
 		}
 	}
+	// small files followed by a meta box, in the ISO form (FullBox) and in the QuickTime form (handler box directly)
+	if base := work.ByName("V300/init.mp4"); base != nil {
+		hd := []byte{0, 0, 0, 33, 'h', 'd', 'l', 'r', 0, 0, 0, 0, 0, 0, 0, 0, 'm', 'd', 'i', 'r', 0, 0, 0, 0, 0, 0, 0, 0, 0, 0, 0, 0, 0}
+		iso := append([]byte{0, 0, 0, 45, 'm', 'e', 't', 'a', 0, 0, 0, 0}, hd...)
+		qt := append([]byte{0, 0, 0, 41, 'm', 'e', 't', 'a'}, hd...)
+		c20Inputs = append(c20Inputs, c20Input{name: "init+meta(iso)", master: append(append([]byte(nil), base.Data...), iso...)})
+		c20Inputs = append(c20Inputs, c20Input{name: "init+meta(quicktime)", master: append(append([]byte(nil), base.Data...), qt...)})
+	}
 	// small files followed by a sample group description box of a grouping type the library has no entry decoder for
 	for i, gt := range []string{"zzzz", "abcd"} {
 		if base := work.ByName([]string{"V300/init.mp4", "golden_init_video.mp4"}[i]); base != nil {
@@ -414,11 +422,13 @@ func c20Exec(tk *c20Task, sc *c20Script, st c20Step, shared [][]byte, annexb [][
 				}
 			}
 		}
-		var b bytes.Buffer
+		// written to the task's own device: every Write is an I/O point, so another task may encrypt its fragments
+		// while this one is still writing
+		w := &c20Dev{tk: tk}
 		if err == nil {
-			err = tk.f.Encode(&b)
+			err = tk.f.Encode(w)
 		}
-		out = append(hashOf(b.Bytes()), errStr(err)...)
+		out = append(hashOf(w.buf), errStr(err)...)
 	case "decrypt":
 		if tk.f == nil || tk.f.Init == nil {
 			return
